@@ -220,3 +220,164 @@ Definition hsv_head_admitted (fs : ht_fields) (head_bytes : Z) : option bool :=
   | Some m => Some (head_bytes <=? m + 4096)
   | None => None
   end.
+
+(* ---------------------------------------------------------------------------------------- *)
+(* http load-balancing groups (server/group/http.go) behind one route of the vhost reverse proxy.
+   The route of a group carries ChooseEndpointFn / CreateConnByEndpointFn / CreateConnFn of the group:
+     hg_choose          HTTPGroup.chooseEndpoint: pxyNames[index mod len], "" (error) when the group is empty
+     hg_by_endpoint     HTTPGroup.createConnByEndpoint: the member of that name, nothing for any other name
+     hg_create_conn     HTTPGroup.createConn: round robin over the members (used by connectHandler through
+                        HTTPReverseProxy.CreateConnection(info, false))
+   A member is (name, backend id). *)
+Definition hg_members := list (bytes * Z).
+
+Definition hg_choose (ms : hg_members) (index : Z) : bytes :=
+  match ms with
+  | [] => []
+  | _ => match nth_error ms (Z.to_nat (index mod Z.of_nat (length ms))) with
+         | Some (n, _) => n
+         | None => []
+         end
+  end.
+
+Fixpoint hg_by_endpoint (ms : hg_members) (name : bytes) : option Z :=
+  match ms with
+  | [] => None
+  | (n, b) :: r => if bytes_eqb n name then Some b else hg_by_endpoint r name
+  end.
+
+Definition hg_create_conn (ms : hg_members) (index : Z) : option Z :=
+  match ms with
+  | [] => None
+  | _ => match nth_error ms (Z.to_nat (index mod Z.of_nat (length ms))) with
+         | Some (_, b) => Some b
+         | None => None
+         end
+  end.
+
+(* how the Rewrite closure binds the chosen endpoint (translator unit t9gr, gen/GenGroupGlue.v):
+   the token of the statement that calls ChooseEndpointFn ("=" assigns the closure's `endpoint` variable,
+   ":=" would declare a new one), whether that statement's first target is `endpoint`, whether the URL.Host
+   expression and `reqRouteInfo.Endpoint = ...` read `endpoint`; and how connectHandler obtains its
+   connection: callee and last argument *)
+Record hg_glue := {
+  hgl_choose_tok : string; hgl_choose_target : string;
+  hgl_urlhost_reads_endpoint : bool; hgl_info_endpoint_from : string;
+  hgl_connect_callee : string; hgl_connect_by_endpoint : string
+}.
+
+Definition hg_glue_ok (g : hg_glue) : bool :=
+  String.eqb (hgl_choose_tok g) "=" && String.eqb (hgl_choose_target g) "endpoint" &&
+  hgl_urlhost_reads_endpoint g && String.eqb (hgl_info_endpoint_from g) "endpoint" &&
+  String.eqb (hgl_connect_callee g) "rp.CreateConnection" && String.eqb (hgl_connect_by_endpoint g) "false".
+
+(* the endpoint that ends up in the pool key / in RequestRouteInfo.Endpoint, given the glue *)
+Definition hg_key_endpoint (g : hg_glue) (chosen : bytes) : bytes :=
+  if String.eqb (hgl_choose_tok g) "=" && String.eqb (hgl_choose_target g) "endpoint" && hgl_urlhost_reads_endpoint g
+  then chosen else [].
+
+(* the connection a CONNECT gets, given the glue: CreateConnection(info, false) -> createConn (round robin);
+   anything that goes by endpoint finds info.Endpoint = "" (connectHandler never chooses one) *)
+Definition hg_connect_conn (g : hg_glue) (ms : hg_members) (index : Z) : option Z :=
+  if String.eqb (hgl_connect_callee g) "rp.CreateConnection" && String.eqb (hgl_connect_by_endpoint g) "false"
+  then hg_create_conn ms index else hg_by_endpoint ms [].
+
+(* ---------------------------------------------------------------------------------------- *)
+(* The group's RWMutex and the dial of a member (createConnByEndpoint / createConn): event shapes from
+   translator unit t9gr.  Go's RWMutex: a waiting writer blocks new readers. *)
+Inductive lk_ev := LkRLock | LkRUnlock | LkDeferRUnlock | LkDial | LkOther (what : string).
+
+(* is the read lock held when the member's CreateConnFn is called? *)
+Fixpoint lk_held_at_dial (evs : list lk_ev) (held deferred : bool) : option bool :=
+  match evs with
+  | [] => None                                   (* no dial in the function *)
+  | LkRLock :: r => lk_held_at_dial r true deferred
+  | LkRUnlock :: r => lk_held_at_dial r false deferred
+  | LkDeferRUnlock :: r => lk_held_at_dial r held true
+  | LkDial :: _ => Some held
+  | LkOther _ :: _ => Some true                   (* not understood: assume the worst *)
+  end.
+
+Definition lk_dial_unlocked (evs : list lk_ev) : bool :=
+  match lk_held_at_dial evs false false with Some false => true | _ => false end.
+
+(* threads of the scenario: D dials a member whose dial stalls ([d_locked]: it holds the read lock meanwhile),
+   W changes the membership (write lock), R is another request (read lock, then its own dial).
+   State of the mutex: readers, writer waiting, writer active.  A schedule is a list of thread ids; a step of a
+   thread that cannot proceed leaves the state unchanged (it waits). *)
+Inductive lk_tid := LkD | LkW | LkR.
+Record lk_state := {
+  ls_readers : Z; ls_wwait : bool; ls_wactive : bool;
+  ls_d : Z;   (* 0 before RLock, 1 holding (stalled dial when d_locked), 2 dial stalled without lock *)
+  ls_w : Z;   (* 0 before Lock, 1 waiting, 2 holding, 3 done *)
+  ls_r : Z    (* 0 before RLock, 1 holding, 2 done (answered) *)
+}.
+Definition lk_init : lk_state := {| ls_readers := 0; ls_wwait := false; ls_wactive := false; ls_d := 0; ls_w := 0; ls_r := 0 |}.
+
+Definition lk_step (d_locked : bool) (s : lk_state) (t : lk_tid) : lk_state :=
+  let can_read := negb (ls_wwait s) && negb (ls_wactive s) in
+  match t with
+  | LkD =>
+      if (ls_d s =? 0) && can_read then
+        {| ls_readers := ls_readers s + 1; ls_wwait := ls_wwait s; ls_wactive := ls_wactive s; ls_d := 1; ls_w := ls_w s; ls_r := ls_r s |}
+      else if (ls_d s =? 1) && negb d_locked then      (* RUnlock, then the dial (which stalls) *)
+        {| ls_readers := ls_readers s - 1; ls_wwait := ls_wwait s; ls_wactive := ls_wactive s; ls_d := 2; ls_w := ls_w s; ls_r := ls_r s |}
+      else s                                            (* d_locked: stays in the stalled dial holding the lock *)
+  | LkW =>
+      if ls_w s =? 0 then
+        {| ls_readers := ls_readers s; ls_wwait := true; ls_wactive := ls_wactive s; ls_d := ls_d s; ls_w := 1; ls_r := ls_r s |}
+      else if (ls_w s =? 1) && (ls_readers s =? 0) then
+        {| ls_readers := 0; ls_wwait := false; ls_wactive := true; ls_d := ls_d s; ls_w := 2; ls_r := ls_r s |}
+      else if ls_w s =? 2 then
+        {| ls_readers := ls_readers s; ls_wwait := ls_wwait s; ls_wactive := false; ls_d := ls_d s; ls_w := 3; ls_r := ls_r s |}
+      else s
+  | LkR =>
+      if (ls_r s =? 0) && can_read then
+        {| ls_readers := ls_readers s + 1; ls_wwait := ls_wwait s; ls_wactive := ls_wactive s; ls_d := ls_d s; ls_w := ls_w s; ls_r := 1 |}
+      else if ls_r s =? 1 then
+        {| ls_readers := ls_readers s - 1; ls_wwait := ls_wwait s; ls_wactive := ls_wactive s; ls_d := ls_d s; ls_w := ls_w s; ls_r := 2 |}
+      else s
+  end.
+
+Definition lk_run (d_locked : bool) (sched : list lk_tid) : lk_state := fold_left (lk_step d_locked) sched lk_init.
+
+(* nobody waits for the stalled dial: in every state W or R can make a step unless it is finished *)
+Definition lk_w_or_r_enabled (d_locked : bool) (s : lk_state) : bool :=
+  ((ls_w s =? 3) || negb (ls_w (lk_step d_locked s LkW) =? ls_w s)) ||
+  ((ls_r s =? 2) || negb (ls_r (lk_step d_locked s LkR) =? ls_r s)).
+
+(* quic-go stream semantics as used by wrapQuicStream.Close (pkg/util/net/conn.go): Close = FIN after all
+   written bytes have been delivered; CancelWrite = RESET_STREAM, bytes not yet delivered are dropped
+   ([delivered_so_far] is an oracle: a prefix of what was written); CancelRead only stops the receiving side *)
+Definition qs_graceful (calls : list string) : bool :=
+  ht_str_mem "Close" calls && negb (ht_str_mem "CancelWrite" calls).
+Definition qs_received (calls : list string) (written delivered_so_far : bytes) : bytes :=
+  if qs_graceful calls then written else delivered_so_far.
+
+(* finite exploration of the lock scenario *)
+Definition lk_state_eqb (a b : lk_state) : bool :=
+  (ls_readers a =? ls_readers b) && Bool.eqb (ls_wwait a) (ls_wwait b) && Bool.eqb (ls_wactive a) (ls_wactive b) &&
+  (ls_d a =? ls_d b) && (ls_w a =? ls_w b) && (ls_r a =? ls_r b).
+Definition lk_mem (s : lk_state) (l : list lk_state) : bool := existsb (lk_state_eqb s) l.
+Definition lk_succ (d_locked : bool) (s : lk_state) : list lk_state :=
+  [lk_step d_locked s LkD; lk_step d_locked s LkW; lk_step d_locked s LkR].
+Fixpoint lk_explore (d_locked : bool) (fuel : nat) (seen frontier : list lk_state) : list lk_state :=
+  match fuel with
+  | O => seen
+  | S f =>
+      let new := filter (fun s => negb (lk_mem s seen)) (flat_map (lk_succ d_locked) frontier) in
+      let new := fold_left (fun acc s => if lk_mem s acc then acc else acc ++ [s]) new [] in
+      match new with
+      | [] => seen
+      | _ => lk_explore d_locked f (seen ++ new) new
+      end
+  end.
+Definition lk_states (d_locked : bool) : list lk_state := lk_explore d_locked 40 [lk_init] [lk_init].
+(* the reachable states of the scenario with the dial made outside the lock, computed once *)
+Definition lk_states_unlocked : list lk_state := Eval vm_compute in lk_states false.
+Definition lk_closed (d_locked : bool) (l : list lk_state) : bool :=
+  lk_mem lk_init l && forallb (fun s => forallb (fun s' => lk_mem s' l) (lk_succ d_locked s)) l.
+(* whatever happened so far, letting the writer and the other request run to completion succeeds *)
+Definition lk_completion : list lk_tid := [LkD; LkD; LkR; LkR; LkW; LkW; LkW; LkD; LkD; LkR; LkR].
+Definition lk_completes (d_locked : bool) (s : lk_state) : bool :=
+  let e := fold_left (lk_step d_locked) lk_completion s in (ls_w e =? 3) && (ls_r e =? 2).
